@@ -5,7 +5,7 @@ import z3
 from sx import core as S, env as E, pl, plh, families as F, known
 
 PROPERTY = "C05"
-REGIONS = ["atoms-only", "compounds-only", "mixed", "negative-node", "integer-leaf", "explicit-id-kept", "via-Not"]
+REGIONS = ["double-negation", "atoms-only", "compounds-only", "mixed", "negative-node", "integer-leaf", "explicit-id-kept", "via-Not"]
 BOUNDS = ("PL family skeletons (<=7 compounds, depth<=3); value/sign of explicitly named AtLeast/AtMost nodes symbolic "
           "(|v|<=2^20); integer-leaf boxes symbolic in [-32768,32767]; leaf values symbolic in-box")
 OUTSIDE = "larger skeletons; symbolic thresholds on generated-id nodes (M6); the open known-finding class (negate on positive mixed node)"
@@ -32,6 +32,11 @@ def instantiations(tier, seed):
         names = F.ALT_NAMES[(k + seed) % len(F.ALT_NAMES)]
         m = F.rename(F.symbolize(sk), names)
         out.append({"model": m, "via": "Not" if k % 3 == 0 else "negate", "warm": k % 3 == 1})
+        if k % 4 == 2:
+            # explicit ids that look like generated ones ("VAR..."), and a chain of two negations
+            mv = F.rename(m, {c["id"]: "VAR" + str(c["id"]) for c in pl.compounds(m) if c.get("id")})
+            out.append({"model": mv, "via": "negate", "chain": 2})
+            out.append({"model": m, "via": "Not", "chain": 2})
     base = F.symbolize(F.AL(2, F.a(), F.b(), F.c(), id="A", sign=1))
     for mu in ("no_complement", "off_by_one"):
         out.append({"kind": "mutant", "mutant": mu, "model": base, "via": "negate"})
@@ -54,6 +59,11 @@ def run_inst(spec, run):
         m0 = pl.build(ns, model_spec, env)
         ref = pl.obj_sem(ns, m0, zvals)
         kn = known.negate_mixed(ns, m0)
+        if spec.get("chain", 1) == 2:
+            try:
+                kn = z3.Or(kn, known.negate_mixed(ns, pl.build(ns, model_spec, env).negate()))
+            except Exception:    # noqa
+                pass
         safe0 = pl.solver_safe(ns, m0)
         atoms = [c for c in m0.propositions if issubclass(c.__class__, ns.puan.variable)]
         shape = "atoms-only" if len(atoms) == len(m0.propositions) else ("compounds-only" if not atoms else "mixed")
@@ -64,6 +74,9 @@ def run_inst(spec, run):
             if spec.get("warm"):
                 plh.warm(ns, m1)
             neg = ns.pg.Not(m1) if spec["via"] == "Not" else m1.negate()
+            if spec.get("chain", 1) == 2:
+                mid_ = neg
+                neg = ns.pg.Not(mid_) if spec["via"] == "Not" else mid_.negate()
             val = neg.evaluate(dict(vals))
         except Exception as e:     # noqa
             err = "%s: %s" % (type(e).__name__, e)
@@ -87,7 +100,9 @@ def run_inst(spec, run):
             run.region("integer-leaf")
         if spec["via"] == "Not":
             run.region("via-Not")
-        want = 1 - res["ref"]
+        want = 1 - res["ref"] if spec.get("chain", 1) == 1 else res["ref"]
+        if spec.get("chain", 1) == 2:
+            run.region("double-negation")
         if mu == "no_complement":
             want = res["ref"]
         if mu == "off_by_one":
